@@ -315,8 +315,113 @@ class KflCase(Case):
             _bound(cfg, 'min'), _bound(cfg, 'max')), dict(eps=_eps())
 
 
+class LayerAssertCase(Case):
+  """Layer.assert_constraints(eps): the real method is executed on the layer built by the real build()
+  with symbolic weights; the recorded conditions must be equivalent (both directions, as above) to the
+  spec instantiated with the LAYER's hyperparameters (canonicalised here, not by the repository) -
+  catches a layer that forwards other or fewer hyperparameters to the library assertion."""
+  contract_key = None
+  xcheck = False
+
+  def setup(self, cfg, c):
+    c.int_cast_range = (0, 3)
+
+  def _layer(self, cfg, c):
+    from vt import kerasc
+    from vt import utils_shim
+    m = load.mod(cfg['module'])
+    kw = {}
+    for k, v in cfg['kwargs'].items():
+      if k in ('edgeworth_trusts', 'trapezoid_trusts', 'monotonic_dominances', 'range_dominances', 'joint_monotonicities',
+               'monotonicities') and isinstance(v, list) and v and isinstance(v[0], list):
+        v = [tuple(t) for t in v]
+      kw[k] = v
+    weights = {}
+
+    def provider(layer, name, shape, dt, init, cons):
+      if not getattr(layer, '_vt_adding_trainable', True):
+        return None
+      return weights.setdefault((layer.name, name), tfc.sym(shape, E.fresh_name('w_' + name)))
+    kerasc.WEIGHT_PROVIDER[0] = provider
+    try:
+      layer = getattr(m, cfg['cls'])(**kw)
+      shp = cfg['input_shape']
+      if isinstance(shp, dict):
+        x = {k: tfc.sym([1] + list(v[1:]), 'x_' + k) for k, v in shp.items()}
+        for t in x.values():
+          for v in t.a.flat:
+            c.assume((P.lift(v) >= 0) & (P.lift(v) <= 1), 'inputs in the first cell')
+        layer(x)      # RTL builds its lattices on the first call
+      else:
+        layer.build(tfc.TensorShape(shp))
+    finally:
+      kerasc.WEIGHT_PROVIDER[0] = None
+    return layer
+
+  def _spec(self, layer, slack):
+    """(clauses relaxed by slack, exact clauses) for one layer, from ITS hyperparameters."""
+    from vt import utils_shim
+    name = type(layer).__name__
+    if name == 'Lattice':
+      n = len(layer.lattice_sizes)
+      args = (layer.kernel, list(layer.lattice_sizes),
+              utils_shim.canon_monotonicities(layer.monotonicities, n) if layer.monotonicities else [0] * n,
+              utils_shim.canon_trusts(layer.edgeworth_trusts) if layer.edgeworth_trusts else [],
+              utils_shim.canon_trusts(layer.trapezoid_trusts) if layer.trapezoid_trusts else [],
+              layer.monotonic_dominances or [], layer.range_dominances or [], layer.joint_monotonicities or [], None)
+      sp = LatticeAssert().spec(*args, output_min=layer.output_min, output_max=layer.output_max)
+      return relax(sp, slack * SLACK_FACTOR), sp
+    if name == 'PWLCalibration':
+      ys = SP.outputs(layer.kernel)
+      if layer.is_cyclic:
+        ys = [col + [col[0]] for col in ys]
+      out = tfc.Tensor(np.array([[ys[u][i] for u in range(len(ys))] for i in range(len(ys[0]))], dtype=object), tfc.float32)
+      sp = PwlAssert().spec(out, utils_shim.canon_monotonicity(layer.monotonicity), layer.output_min, layer.output_max,
+                            clamp_min=layer.clamp_min, clamp_max=layer.clamp_max)
+      if layer.impute_missing and layer.missing_output_value is None:
+        sp = sp + [('missing:' + n, b) for n, b in PwlAssert().spec(layer.missing_output, 0, layer.output_min, layer.output_max)]
+      return relax(sp, slack * SLACK_FACTOR), sp
+    if name == 'CategoricalCalibration':
+      sp = CategoricalAssert().spec(layer.kernel, layer.output_min, layer.output_max, layer.monotonicities)
+      return relax(sp, slack * SLACK_FACTOR), sp
+    if name == 'KroneckerFactoredLattice':
+      D = int(tfc._t(layer.kernel).a.shape[2]) // layer.units
+      monos = utils_shim.canon_monotonicities(layer.monotonicities, D) if layer.monotonicities else []
+      k = KflAssert()
+      return (k.clauses(layer.kernel, layer.units, layer.scale, monos, layer.output_min, layer.output_max, slack),
+              k.clauses(layer.kernel, layer.units, layer.scale, monos, layer.output_min, layer.output_max, P.const(0)))
+    raise tfc.NoContract('no layer-level assertion spec for %s' % name)
+
+  def body(self, cfg, c):
+    layer = self._layer(cfg, c)
+    eps = P.var('eps')
+    c.assume(eps > 0, 'eps > 0')
+    before = len(c.asserts)
+    try:
+      layer.assert_constraints(eps=eps)
+      conds = [b for _, b in c.asserts[before:]]
+      ok = E.ball(conds)
+    except (ValueError, TypeError) as e:
+      c.notes.append('raised %s: %s' % (type(e).__name__, e))
+      ok = E.FALSE
+    subs = [layer]
+    if type(layer).__name__ == 'RTL':
+      subs = list(layer._lattice_layers.values())
+    cl = []
+    exact_all = []
+    for sub in subs:
+      relaxed, exact = self._spec(sub, eps)
+      exact_all += exact
+      for n, b in relaxed:
+        cl.append(('accepts-only-feasible[%s]:%s' % (sub.name, n), ok.implies(b)))
+    cl.append(('accepts-all-feasible', H.conj(exact_all).implies(ok)))
+    cl.append(('some-condition-recorded', B.const(ok is E.FALSE or len(c.asserts) > before or not exact_all)))
+    return cl
+
+
 CASES = {'lattice': LatticeCase(), 'pwl': PwlCase(), 'linear': LinearCase(),
-         'categorical': CategoricalCase(), 'kfl': KflCase()}
+         'categorical': CategoricalCase(), 'kfl': KflCase(),
+         'layer': LayerAssertCase()}
 
 
 def configs(tier, rng):
@@ -356,6 +461,41 @@ def configs(tier, rng):
       jobs.append(('linear', cfg))
     elif cn == 'cp':
       jobs.append(('categorical', cfg))
+  # layer-level assert_constraints (hyperparameter forwarding)
+  T = lambda *ts: [list(t) for t in ts]
+  layer_jobs = [
+      dict(module='lattice_layer', cls='Lattice', input_shape=[None, 2],
+           kwargs=dict(lattice_sizes=[2, 3], monotonicities=['increasing', 'increasing'], edgeworth_trusts=T((0, 1, 'positive')),
+                       trapezoid_trusts=T((0, 1, 'positive')), output_min=0.0, output_max=2.0)),
+      dict(module='lattice_layer', cls='Lattice', input_shape=[None, 2, 2],
+           kwargs=dict(lattice_sizes=[2, 2], units=2, monotonicities=[1, 1], monotonic_dominances=T((0, 1)),
+                       joint_monotonicities=T((0, 1)), output_max=1.0)),
+      dict(module='lattice_layer', cls='Lattice', input_shape=[None, 2],
+           kwargs=dict(lattice_sizes=[3, 2], monotonicities=[1, 1], range_dominances=T((0, 1)), output_min=-1.0)),
+      dict(module='pwl_calibration_layer', cls='PWLCalibration', input_shape=[None, 2],
+           kwargs=dict(input_keypoints=[0.0, 1.0, 3.0], units=2, monotonicity='decreasing', output_min=0.0, output_max=1.0,
+                       clamp_min=True, impute_missing=True)),
+      dict(module='pwl_calibration_layer', cls='PWLCalibration', input_shape=[None, 1],
+           kwargs=dict(input_keypoints=[0.0, 1.0, 3.0], monotonicity='increasing', output_max=1.0, clamp_max=True)),
+      dict(module='pwl_calibration_layer', cls='PWLCalibration', input_shape=[None, 1],
+           kwargs=dict(input_keypoints=[0.0, 1.0, 2.0, 3.0], is_cyclic=True, output_min=0.0, output_max=1.0, impute_missing=True,
+                       missing_input_value=-1.0)),
+      dict(module='pwl_calibration_layer', cls='PWLCalibration', input_shape=[None, 2],
+           kwargs=dict(input_keypoints=[0.0, 1.0, 3.0], units=2, monotonicity='increasing', output_min=0.0, output_max=1.0,
+                       split_outputs=True)),
+      dict(module='pwl_calibration_layer', cls='PWLCalibration', input_shape=[None, 1],
+           kwargs=dict(input_keypoints=[0.0, 1.0, 3.0], output_min=0.0, output_max=1.0, input_keypoints_type='learned_interior')),
+      dict(module='categorical_calibration_layer', cls='CategoricalCalibration', input_shape=[None, 2],
+           kwargs=dict(num_buckets=3, units=2, output_min=0.0, output_max=1.0, monotonicities=T((0, 1), (1, 2)))),
+      dict(module='kronecker_factored_lattice_layer', cls='KroneckerFactoredLattice', input_shape=[None, 2],
+           kwargs=dict(lattice_sizes=2, num_terms=2, monotonicities=['increasing', 'none'], output_min=0.0, output_max=1.0)),
+      dict(module='kronecker_factored_lattice_layer', cls='KroneckerFactoredLattice', input_shape=[None, 2, 2],
+           kwargs=dict(lattice_sizes=3, units=2, num_terms=1, monotonicities=[1, 1], output_min=0.0)),
+      dict(module='rtl_layer', cls='RTL', input_shape={'unconstrained': [None, 1], 'increasing': [None, 2]},
+           kwargs=dict(num_lattices=2, lattice_rank=2, output_min=0.0, output_max=1.0, random_seed=3)),
+  ]
+  for lj in layer_jobs:
+    jobs.append(('layer', lj))
   # Kronecker-factored lattice
   for L, D in (((2, 1), (2, 2), (3, 2)) if tier == 'quick' else ((2, 1), (2, 2), (3, 2), (2, 3), (3, 3))):
     for units in (1, 2):
